@@ -53,7 +53,9 @@ func appendOf(v ssa.Value) (base, x ssa.Value, ok bool) {
 }
 
 // le64Of: v is a slice over an 8-byte buffer on which LittleEndian.PutUint64(v, uint64(X)) is called; returns X.
-func le64Of(v ssa.Value) (ssa.Value, bool) {
+// With several such calls on one (reused) buffer, the one whose value the use at `at` reads: the latest
+// call dominating `at`, provided no other call can run between it and `at`.
+func le64Of(v ssa.Value, at ssa.Instruction) (ssa.Value, bool) {
 	v = core.Strip(v)
 	refs := v.Referrers()
 	if refs == nil {
@@ -63,17 +65,45 @@ func le64Of(v ssa.Value) (ssa.Value, bool) {
 	if n, ok := core.LenOf(v); !ok || n != 8 {
 		return nil, false
 	}
-	var arg ssa.Value
-	n := 0
+	var puts []*ssa.Call
 	for _, in := range *refs {
 		if c, ok := in.(*ssa.Call); ok && core.CallIs(c, "(encoding/binary.littleEndian).PutUint64") && len(c.Call.Args) == 3 && c.Call.Args[1] == v {
-			arg = c.Call.Args[2]
-			n++
+			puts = append(puts, c)
 		}
 	}
-	if n != 1 {
+	var pick *ssa.Call
+	switch {
+	case len(puts) == 1:
+		pick = puts[0]
+	case len(puts) > 1 && at != nil:
+		for _, c := range puts {
+			if c.Parent() != at.Parent() || !core.InstrDominates(c, at) {
+				continue
+			}
+			latest := true
+			for _, d := range puts {
+				if d == c {
+					continue
+				}
+				if d.Parent() != at.Parent() {
+					latest = false
+				} else if core.InstrDominates(d, at) {
+					if !core.InstrDominates(d, c) {
+						latest = false
+					}
+				} else if core.InstrReaches(d, at) {
+					latest = false
+				}
+			}
+			if latest {
+				pick = c
+			}
+		}
+	}
+	if pick == nil {
 		return nil, false
 	}
+	arg := pick.Call.Args[2]
 	if cv, ok := arg.(*ssa.Convert); ok {
 		arg = cv.X
 	}
@@ -134,12 +164,28 @@ func c16Framing(c *ctx, rule, name string) string {
 		return ""
 	}
 	dataWrite := writes[len(writes)-1]
-	data := core.Strip(dataWrite.Call.Args[0])
+	// the framing may be factored into private helpers of the package (one block per call, or the whole
+	// loop): helper results and parameters are read through (core.ResolveIn)
+	rs := func(v ssa.Value) ssa.Value { return core.ResolveIn(fn, v) }
+	rt := func(v ssa.Value) *T { return core.FrameTerm(fn, v) }
+	appendOfR := func(v ssa.Value) (base, x ssa.Value, call *ssa.Call, ok bool) {
+		c, isC := rs(v).(*ssa.Call)
+		if !isC {
+			return nil, nil, nil, false
+		}
+		b, isB := c.Call.Value.(*ssa.Builtin)
+		if !isB || b.Name() != "append" || len(c.Call.Args) != 2 {
+			return nil, nil, nil, false
+		}
+		return c.Call.Args[0], c.Call.Args[1], c, true
+	}
+	data := rs(dataWrite.Call.Args[0])
 	phi, ok := data.(*ssa.Phi)
 	if !ok || len(phi.Edges) != 2 {
 		c.r.Bad(rule, key("single-buffer"), c.pos(dataWrite), "the buffer written to the hash is not the result of one framing loop")
 		return ""
 	}
+	lf := phi.Parent() // the function holding the framing loop: fn or a private helper of it
 	// result derives from Sum of the same state, after the Write
 	resOK := core.InstrDominates(dataWrite, sum)
 	for _, ret := range core.Returns(fn) {
@@ -156,7 +202,7 @@ func c16Framing(c *ctx, rule, name string) string {
 
 	// loop identification
 	var loop *core.Loop
-	for _, l := range core.Loops(fn) {
+	for _, l := range core.Loops(lf) {
 		if l.Header == phi.Block() {
 			loop = l
 		}
@@ -165,7 +211,16 @@ func c16Framing(c *ctx, rule, name string) string {
 		c.r.Bad(rule, key("loop"), c.pos(dataWrite), "framing loop not recognised")
 		return ""
 	}
-	hi := core.TermOf(loop.Hi)
+	// len(table) of a table made with one slot per input is the number of inputs
+	lenNorm := func(t *T) *T {
+		if t.Op == "call:len" {
+			if mk, isMk := valueOfTerm(t.Args[0]).(*ssa.MakeSlice); isMk {
+				return rt(mk.Len)
+			}
+		}
+		return t
+	}
+	hi := lenNorm(rt(loop.Hi))
 	covers := loop.Lo == 0 && !loop.HiIncl && hi.Op == "call:len" && hi.Args[0].Key() == core.TermOf(inParam).Key()
 	c.r.Check(covers, rule, key("loop-covers-all-inputs"), c.pos(dataWrite), "the framing loop runs over every input in order", "the framing loop does not run over all inputs 0..len(in)-1")
 
@@ -179,10 +234,10 @@ func c16Framing(c *ctx, rule, name string) string {
 		}
 	}
 	cntOK := false
-	if b, x, ok := appendOf(initV); ok {
-		if _, isMk := core.Strip(b).(*ssa.MakeSlice); isMk {
-			if arg, ok := le64Of(x); ok {
-				if la, ok := lenArg(arg); ok && core.TermOf(la).Key() == core.TermOf(inParam).Key() {
+	if b, x, ac, ok := appendOfR(initV); ok {
+		if _, isMk := rs(b).(*ssa.MakeSlice); isMk {
+			if arg, ok := le64Of(rs(x), ac); ok {
+				if la, ok := lenArg(rs(arg)); ok && lenNorm(&core.Term{Op: "call:len", Args: []*T{rt(la)}}).Key() == (&core.Term{Op: "call:len", Args: []*T{core.TermOf(inParam)}}).Key() {
 					cntOK = true
 				}
 			}
@@ -190,34 +245,68 @@ func c16Framing(c *ctx, rule, name string) string {
 	}
 	c.r.Check(cntOK, rule, key("count-prefix"), c.fpos(fn), "the buffer starts with LE64(len(inputs))", "the buffer does not start with the 8-byte little-endian count of inputs (different input counts can produce the same pre-image)")
 
+	// an append executed on every iteration: in the loop's function its block dominates the latches; in a
+	// helper called from the loop body its block dominates the helper's returns and the call the latches
+	everyIteration := func(call *ssa.Call) bool {
+		at := ssa.Instruction(call)
+		for d := 0; at.Parent() != lf && d < 4; d++ {
+			h := at.Parent()
+			for _, ret := range core.Returns(h) {
+				if !at.Block().Dominates(ret.Block()) {
+					return false
+				}
+			}
+			var site ssa.CallInstruction
+			n := 0
+			for _, g := range unitFuncs(lf) {
+				for _, cs := range core.Calls(g) {
+					if core.Callee(cs) == h {
+						site = cs
+						n++
+					}
+				}
+			}
+			if n != 1 {
+				return false
+			}
+			at = site
+		}
+		if at.Parent() != lf {
+			return false
+		}
+		for _, la := range loop.Latches() {
+			if !at.Block().Dominates(la) {
+				return false // conditional append: an input can be skipped
+			}
+		}
+		return true
+	}
 	// per-iteration chain: back edge value = append(append(append(phi, elem), delim), LE64(len(elem)))
 	var ops []ssa.Value
+	var opCalls []*ssa.Call
 	cur := backV
 	chainOK := true
 	for i := 0; i < 8; i++ {
-		if core.Strip(cur) == ssa.Value(phi) {
+		if rs(cur) == ssa.Value(phi) {
 			break
 		}
-		b, x, ok := appendOf(cur)
+		b, x, call, ok := appendOfR(cur)
 		if !ok {
 			chainOK = false
 			break
 		}
-		if call := core.Strip(cur).(*ssa.Call); true {
-			for _, la := range loop.Latches() {
-				if !call.Block().Dominates(la) {
-					chainOK = false // conditional append: an input can be skipped
-				}
-			}
+		if !everyIteration(call) {
+			chainOK = false
 		}
 		ops = append([]ssa.Value{x}, ops...)
+		opCalls = append([]*ssa.Call{call}, opCalls...)
 		cur = b
 	}
 	if !chainOK || len(ops) != 3 {
 		c.r.Bad(rule, key("frame=elem|delim|len"), c.fpos(fn), fmt.Sprintf("each iteration must append exactly element bytes, delimiter, length unconditionally; found %d appends (conditional or unrecognised)", len(ops)))
 		return ""
 	}
-	elem, delim, lenBuf := ops[0], ops[1], ops[2]
+	elem, delim, lenBuf := rs(ops[0]), rs(ops[1]), rs(ops[2])
 	// delimiter: one constant byte
 	delimOK := false
 	var delimVal int64
@@ -231,9 +320,9 @@ func c16Framing(c *ctx, rule, name string) string {
 	// length suffix: LE64(len(X)) with X the same value as the element appended
 	lenOK := false
 	lenWhy := "the length suffix is missing"
-	if arg, ok := le64Of(lenBuf); ok {
-		if la, ok := lenArg(arg); ok {
-			if core.TermOf(la).Key() == core.TermOf(elem).Key() {
+	if arg, ok := le64Of(lenBuf, opCalls[2]); ok {
+		if la, ok := lenArg(rs(arg)); ok {
+			if rt(la).Key() == rt(elem).Key() {
 				lenOK = true
 			} else {
 				lenWhy = fmt.Sprintf("the length suffix encodes len(%s) but the bytes appended are %s: split points are not encoded", descr(la), descr(elem))
@@ -246,8 +335,8 @@ func c16Framing(c *ctx, rule, name string) string {
 	c.r.Check(lenOK, rule, key("length-suffix-of-same-element"), c.fpos(fn), "LE64(len(element)) follows the delimiter, for the very bytes appended in that iteration", lenWhy)
 	// element = bytes of input i
 	form := ""
-	et := core.TermOf(elem)
-	idxKey := core.TermOf(loop.Idx).Key()
+	et := rt(elem)
+	idxKey := rt(loop.Idx).Key()
 	elemOK := false
 	elemWhy := ""
 	inKey := core.TermOf(inParam).Key()
